@@ -35,19 +35,45 @@ was written against printed a VIOLATION when run with `VERIF_REPO=<scratch copy 
 the first violating run of that batch (budget: the quick tier). "also caught by" lists other properties' quick
 checks (run at a tenth of their quick budget) that report a violation of their own on the same change.
 
-Changes that were *missed* when first tried, and what was strengthened (all are detected now):
-`C06-groupby-swallows-attributeerror` (groupby became a tool of the shared tool table, fault types now include
-AttributeError/KeyError/IndexError/OSError/AssertionError), `C08-athrow-forwarded-through-outer-handle` (nested scope
-failing and being caught outside of it), `C17-sorted-executor-for-large-inputs` (input size is a knob: up to 20 000 items,
-outcome compared with the stdlib when driven without a loop), `C17-cached-property-await-swallows-throw` (a throw that
-never reaches the suspended awaitable is a breach of its own), `C20-groupby-remembers-all-groups` (groupby in C20),
-`C07-athrow-not-disabled-without-asend` and `C07-internal-borrow-unwraps-handle` (tools and aggregations on the handle
-are now judged by the stdlib tool over a model iterator, athrow through a closed handle, athrow-only iterators),
-`C01-zip-strict-none-sentinel`, `C01-dropwhile-predicate-after-drop-raises`, `C01-zip_longest-all-fill-row-terminates`
-(None among the items, fill value shared with an item), `C12-placeholder-reregisters-itself` (held awaitables awaited
-again by any task, clause "no value from a run that started before the deletion preceding the access"),
-`C18-scoped_iter-closes-in-wrapper-finally` (scoped_iter class in C18, block-level pauses in C08),
-`C18-tee-lock-acquire-inside-try` (a lock released by a non-owner is a violation in C18 as well).
+Changes that were *missed* when first tried, by round, and what was strengthened (every one is detected now; the
+first three rounds of agents got only a property text, the fourth round was additionally told which ideas had been
+used already and asked for triggers that random testing is unlikely to hit):
+
+* round 1 (5 of 51 missed): `C06-groupby-swallows-attributeerror` (groupby joined the shared tool table; fault types now
+  include AttributeError/KeyError/IndexError/OSError/AssertionError), `C08-athrow-forwarded-through-outer-handle` (a nested
+  scope failing and being caught outside of it), `C17-sorted-executor-for-large-inputs` (input size is a knob, up to 20 000
+  items, outcome compared with the stdlib when driven without a loop), `C17-cached-property-await-swallows-throw` (a throw
+  that never reaches the suspended awaitable is a breach of its own), `C20-groupby-remembers-all-groups` (groupby in C20).
+* round 2 (8 of 31): `C07-athrow-not-disabled-without-asend`, `C07-internal-borrow-unwraps-handle` (tools and aggregations on
+  the handle are judged by the stdlib function over a model iterator; athrow through a closed handle; athrow-only
+  iterators), `C01-zip-strict-none-sentinel`, `C01-dropwhile-predicate-after-drop-raises`,
+  `C01-zip_longest-all-fill-row-terminates` (None among the items, fill value shared with an item),
+  `C12-placeholder-reregisters-itself` (held awaitables awaited again by any task; clause "no value from a run that started
+  before the deletion preceding the access"), `C18-scoped_iter-closes-in-wrapper-finally` (scoped_iter class in C18,
+  block-level pauses in C08), `C18-tee-lock-acquire-inside-try` (a lock released by a non-owner is a violation in C18 too).
+* round 3 (10 of 30): `C08-scoped-handle-keeps-asend-after-scope` (dead handles probed through asend/athrow),
+  `C13-func-keyword-collision` (keyword arguments with names the machinery uses), `C15-recreate-with-bound-arguments`
+  (manager taking positional-only, *args, keyword-only and **opts), `C17-groupby-checkpoint-every-128` (long runs of equal
+  keys), `C19-apply-memoises-by-identity` (one re-awaitable object for several parameters),
+  `C19-await_each-drains-source-on-close` (source pulls and untouched leftovers are accounted),
+  `C03-callback-awaits-only-coroutines` (ExitStack exit callables of every flavour), `C03-sync-freezes-first-verdict`
+  (callables that answer with an awaitable only sometimes), `C16-none-key-means-no-target` (None as a key / item),
+  `C20-chain-from_iterable-remembers-members` (lazily supplied container members).
+* round 4 (19 of 36): `C01-accumulate-inplace-add` (mutable items, source objects must stay unchanged),
+  `C01-merge-reuses-key-for-equal-items`, `C16-key-reused-for-equal-values` (a key that tells equal items apart),
+  `C01-zip_longest-retires-all-slots-of-shared-iterator`, `C05-zip_longest-active-set` (one iterator object in two argument
+  positions), `C03-awaitify-classes-treated-as-sync`, `C16-falsy-key-callable-ignored` (callable flavours: a class whose
+  instances are awaitable, a falsy callable object, a future-like awaitable), `C05-stale-group-by-key-again` (the groupby
+  driver steps earlier, stale groups), `C06-scopediter-aexit-returns-aclose-result`, `C08-exit-awaits-aclose-only-if-coroutine`
+  (aclose returning a value / a plain def returning a non-coroutine awaitable), `C07-wrapper-loop-uses-none-sentinel`,
+  `C07-aclose-wrapper-early-return-when-finished`, `C07-wrapper-closes-underlying-on-baseexception` (None items, borrowing
+  a handle, transient errors of the underlying iterator), `C08-scoped-skips-close-for-borrowed-sources` (a borrowed handle
+  given to scoped_iter), `C12-restart-handler-swallows-getter-keyerror` (getter error types), `C12-placeholder-holds-instance-weakly`
+  (attribute of a temporary instance), `C17-chain-aclose-sleeps-while-running` (several tasks on one iterator),
+  `C17-force_async-awaits-awaitable-results` (awaitables handed out as values), `C19-any_iter-iterates-futures`,
+  `C19-apply-func-keyword-collision`, `C19-sync-eafp-swallows-typeerror` (future-like awaitables, keyword names, error types).
+  One seeded change made a tool run forever on finite input and killed a worker: consumers now stop after 3000 items
+  ("runaway") and the comparison with the stdlib reports it.
 
 | id | change | needs to manifest | detected by its property's check | also caught by |
 |----|--------|-------------------|----------------------------------|----------------|
